@@ -61,7 +61,8 @@ def tasks(tier, seed=0):
             others = [""] if op in vslift.DSIS_UN or op in ("extract", "zero_extend", "sign_extend") else (
                 ["si", "dsis"] if op in ("union", "intersection", "concat") else ["si", "int", "dsis"])
             for o in others:
-                out.append(task(M, "ob_dsis", f"dsis.{op}" + (f"[{o}]" if o else "") + f"/gamma@w{w}", ["C23"], op=op, w=w, other=o or "si", tier=tier))
+                out.append(task(M, "ob_dsis", f"dsis.{op}" + (f"[{o}]" if o else "") + f"/gamma@w{w}", ["C23"], op=op, w=w, other=o or "si", tier=tier,
+                                replay="vf.contracts.vslift:replay_dsis_setop" if op in ("union", "intersection") else None))
         for q in ("eval1", "eval3", "cardinality", "collapse", "normalize", "copy"):
             out.append(task(M, "ob_dsis_query", f"dsis.{q}/consistent@w{w}", ["C23"], q=q, w=w, tier=tier))
     out.append(task(M, "ob_dsis_frame", "dsis._update_bounds/frame", ["C23"], w=2, tier=tier))
